@@ -298,10 +298,10 @@ Section Proofs.
         * inversion E; subst. destruct (Hprog _ _ _ _ Hi) as (pre & P1 & P2 & P3 & P4).
           exists (pre ++ [(m, o)]). rewrite <- app_assoc. cbn [app]. split; [exact P1|split; [|split]].
           -- rewrite app_length. cbn. lia.
-          -- rewrite P3, mkcalls_app. cbn. unfold cur. cbn. rewrite Nat.add_0_l.
-             destruct todo' as [|[m2 o2] r2]; rewrite app_nil_r; reflexivity.
-          -- rewrite P4, mkcalls_app. cbn. unfold cur. cbn. rewrite Nat.add_0_l.
-             destruct todo' as [|[m2 o2] r2]; rewrite app_nil_r; reflexivity.
+          -- rewrite P3, mkcalls_app. unfold cur. cbn. rewrite ?Nat.add_0_l, ?P2.
+             destruct r as [|[m2 o2] r2]; rewrite ?app_nil_r; reflexivity.
+          -- rewrite P4, mkcalls_app. unfold cur. cbn. rewrite ?Nat.add_0_l, ?P2.
+             destruct r as [|[m2 o2] r2]; rewrite ?app_nil_r; reflexivity.
         * apply Hprog. exact Hj.
   Qed.
 
@@ -312,7 +312,7 @@ Section Proofs.
     - destruct (stepf s i) as [s1|] eqn:E; [|discriminate]. eapply IH; [|exact Hr]. eapply step_inv; eauto.
   Qed.
 
-  Lemma finished_thread s i t : finished s = true -> nth_error (thr s) i = Some t -> exists k, t = (Idle, k, []).
+  Lemma finished_thread (s : state) i t : finished s = true -> nth_error (thr s) i = Some t -> exists k, t = (Idle, k, []).
   Proof.
     unfold finished. rewrite forallb_forall. intros H Hi. apply nth_error_In in Hi. apply H in Hi.
     destruct t as [[[| |] k] [|x r]]; try discriminate. eauto.
@@ -324,7 +324,7 @@ Section Proofs.
      (2) every object ends in the state the one-at-a-time execution of lin leaves it in;
      (3) per object, the operations ran in that order and returned what the one-at-a-time execution returns;
      (4) hence every operation got exactly the result it gets in the one-at-a-time execution of lin. *)
-  Theorem serial_equivalence progs s0 sched s :
+  Theorem serial_equivalence progs s0 sched (s : state) :
     run sched (init progs s0) = Some s -> finished s = true ->
     (forall i p, nth_error progs i = Some p -> by_thread i (acqs s) = mkcalls i 0 p) /\
     (forall m, st s m = fst (serial (acqs s) s0) m) /\
@@ -344,7 +344,7 @@ Section Proofs.
       destruct (nth_error (thr s) i) as [t|] eqn:E; [|apply nth_error_None in E; lia].
       destruct (finished_thread _ _ _ Hf E) as [k ->].
       destruct (Hprog _ _ _ _ E) as (pre & P1 & _ & P3 & _).
-      rewrite Hp in P1. inversion P1; subst p. rewrite app_nil_r in *. rewrite P3. unfold cur. rewrite app_nil_r. reflexivity.
+      rewrite Hp in P1. inversion P1; subst p. rewrite P3. unfold cur. rewrite !app_nil_r. reflexivity.
     - intro m. destruct (serial_locality m _ _ s0 (Hsame m)) as [L1 _]. rewrite L1. apply Hv1.
     - exact H3.
     - intro x. split; intro Hx.
@@ -355,7 +355,7 @@ Section Proofs.
   Qed.
 
   (* the same with the linearization point at the body: then the history IS the sequential one, entry by entry *)
-  Theorem serial_equivalence_body_order progs s0 sched s :
+  Theorem serial_equivalence_body_order progs s0 sched (s : state) :
     run sched (init progs s0) = Some s ->
     (forall m, st s m = fst (serial (map fst (hist s)) s0) m) /\ hist s = snd (serial (map fst (hist s)) s0).
   Proof.
@@ -363,7 +363,7 @@ Section Proofs.
   Qed.
 
   (* mutual exclusion at the value level, for completeness *)
-  Theorem at_most_one_holder progs s0 sched s i j ti tj m :
+  Theorem at_most_one_holder progs s0 sched (s : state) i j ti tj m :
     run sched (init progs s0) = Some s ->
     nth_error (thr s) i = Some ti -> nth_error (thr s) j = Some tj ->
     holdsb m ti = true -> holdsb m tj = true -> i = j.
